@@ -99,6 +99,40 @@ package fzf
 //@ ensures (mg.merged.arr == old(mg.merged.arr) && mg.merged.off == old(mg.merged.off) && cap(mg.merged) == old(cap(mg.merged)) && len(mg.merged) >= old(len(mg.merged))) || fresh(mg.merged)
 //@ ensures mg.cursors == old(mg.cursors)
 
+// buildResult: the rank of a result.  Slot 3-k holds the value of the k-th criterion (compareRanks reads slot 3
+// first): the score criterion stores 65535 - score, so a higher score ranks first; the length criterion the trimmed
+// length; never an index outside the four slots or outside the line.
+// (verified from the statement after the offsets have been sorted: sort.Sort over an interface value is outside the
+//  subset; that every offset lies inside the line - what the matchers guarantee - is assumed for the sorted slice)
+//@ func buildResult region @"result := Result{item: item}"
+//@ property C04
+//@ requires item != nil && validChars(&item.text) && len(sortCriteria) <= 4
+//@ requires forall(k, 0, len(offsets), 0 <= offsets[k][0] && offsets[k][0] <= offsets[k][1] && offsets[k][1] <= clen(&item.text))
+//@ ensures result.item == item
+//@ ensures forall(k, 0, len(sortCriteria), sortCriteria[k] == byScore ==> result.points[3-k] == 65535 - (score < 0 ? 0 : (score > 65535 ? 65535 : score)))
+//@ requires trimMemoOK(&item.text)
+//@ modifies item.text.trimLength, item.text.trimLengthKnown
+//@ loop 1
+//@   invariant numChars == clen(&item.text) && 0 <= maxEnd && maxEnd <= numChars && 0 <= minBegin && 0 <= minEnd
+//@   invariant validOffsetFound ==> minBegin <= numChars && minEnd <= numChars && minBegin <= maxEnd
+//@ loop 2
+//@   writes item.text.trimLength, item.text.trimLengthKnown
+//@   invariant numChars == clen(&item.text) && result.item == item && trimMemoOK(&item.text) && validChars(&item.text)
+//@   invariant 0 <= maxEnd && maxEnd <= numChars && 0 <= minBegin && 0 <= minEnd && (validOffsetFound ==> minBegin <= numChars && minEnd <= numChars && minBegin <= maxEnd)
+//@   invariant forall(k, 0, iter, sortCriteria[k] == byScore ==> result.points[3-k] == 65535 - (score < 0 ? 0 : (score > 65535 ? 65535 : score)))
+//@ loop 3
+//@   writes nothing
+//@   invariant 0 <= b && b <= minBegin
+//@ loop 4
+//@   writes nothing
+//@   invariant maxEnd <= e && e <= numChars
+//@ loop 5
+//@   writes nothing
+//@   invariant -1 <= i && i < len(s) && lastDelim == -1
+//@ loop 6
+//@   writes nothing
+//@   invariant 0 <= idx && idx <= numChars && 0 <= whitePrefixLen && whitePrefixLen <= idx
+
 // sliceChunks: the work is split into consecutive, non-empty views of the chunk list - in order, nothing left
 // out, nothing twice - so that concatenating the per-partition results in partition order is the list order.
 //@ func Matcher.sliceChunks
